@@ -343,6 +343,7 @@ REGISTRY["C13"] = {
         {"name": "TestC13TwoInstances", "checks": {"quick": 100, "thorough": 3000}, "shards": {"quick": 2, "thorough": 8}},
         {"name": "TestC13Funnel", "checks": {"quick": 150, "thorough": 4000}, "shards": {"quick": 4, "thorough": 16}},
         {"name": "TestC13FarDates", "checks": {"quick": 300, "thorough": 20000}, "shards": {"quick": 2, "thorough": 16}},
+        {"name": "TestC13Many", "checks": {"quick": 40, "thorough": 1000}, "shards": {"quick": 4, "thorough": 8}, "gomaxprocs": [16, 4, 2, 1]},
     ],
 }
 
